@@ -20,9 +20,12 @@
   `iter_eq_spec_yearly_bymonth_nth_partial`: nth weekdays counted inside the month (MONTHLY, or YEARLY
   with BYMONTH) or the year (YEARLY without BYMONTH).  And `iter_eq_spec_yearly_easter_partial`: YEARLY with BYEASTER
   offsets −80..250 in 1583..4099, and `iter_eq_spec_yearly_weekno_partial`: YEARLY with BYWEEKNO on the
-  complement of D-C01c (any week start, plain BYDAY allowed).  Missing: the three sub-daily frequencies
-  (the model skips empty periods, so the refinement is not period-by-period), BYWEEKNO / BYEASTER for the
-  other frequencies, and mixing nth BYDAY / BYEASTER / BYWEEKNO with BYMONTHDAY (or nth BYDAY / BYEASTER
+  complement of D-C01c (any week start, plain BYDAY allowed).  And `iter_eq_spec_hourly_partial`: HOURLY
+  without BYHOUR, through a refinement with skipping (one turn of the loop may pass over several periods
+  of the specification; `n` turns = the first `m` periods, `n ≤ m ≤ 24·n`).  Missing: HOURLY with BYHOUR,
+  MINUTELY, SECONDLY (the same skipping refinement applies; the reachability loops `__mod_distance` /
+  `minutelyLoop` / `secondlyLoop` are only proved monotone so far), BYWEEKNO / BYEASTER for the other
+  frequencies, and mixing nth BYDAY / BYEASTER / BYWEEKNO with BYMONTHDAY (or nth BYDAY / BYEASTER
   with plain BYDAY).  Everything else below — including
   `iter_strictMono` for all seven frequencies — is proved for ALL rules / all argument sets, with no
   `Supported` hypothesis (so also inside the known-defect classes).
@@ -40,6 +43,7 @@ import DateutilVerif.Proofs.RRuleNthYM
 import DateutilVerif.Proofs.RRuleEasterYearly
 import DateutilVerif.Proofs.RRuleWeeknoYearly
 import DateutilVerif.Proofs.RRuleOrig
+import DateutilVerif.Proofs.RRuleHourly
 
 namespace C01
 open RRule Cal RRule.Tables
@@ -399,6 +403,19 @@ theorem iter_eq_spec_yearly_weekno_partial (a : Args) (r : Rule) (wa : WeeknoYAr
     (iter r n).1 = Spec.RRule.occ a n :=
   iter_eq_spec_yearly_weekno wa h n hy
 
+/-- **`iter_eq_spec`, proved portion, HOURLY** (no BYHOUR): INTERVAL ≥ 1, valid start, any BYMONTH /
+    BYMONTHDAY (non-zero) / BYYEARDAY / BYDAY / BYMINUTE / BYSECOND (members 0..59; outside, the generator
+    raises while iterating) / BYSETPOS, any COUNT / UNTIL, no BYWEEKNO / BYEASTER.  The generator does not
+    visit every hour of the grid: after a day removed by the BY-filter it jumps to that day's last
+    on-grid hour.  So `n` turns of its loop correspond to `m` periods of the specification, `n ≤ m ≤ 24·n`
+    (the hours passed over are proved to select nothing), and what has been yielded after `n` turns is
+    exactly the specification's recurrence set of the first `m` periods — in particular the two
+    sequences are the same. -/
+theorem iter_eq_spec_hourly_partial (a : Args) (r : Rule) (ha : HourlyArgs a) (h : construct a = .ok r) (n : Nat)
+    (hle : Spec.RRule.startOrd a * 24 + a.dtstart.hh + (24 * n + 1) * a.interval + 23 < (maxOrdinal + 1) * 24) :
+    ∃ m, n ≤ m ∧ m ≤ 24 * n ∧ (iter r n).1 = Spec.RRule.occ a m :=
+  iter_eq_spec_hourly ha h n hle
+
 /-! ### non-vacuity and the known-finding witnesses reproduced by the model -/
 
 def dt (y m d : Int) (hh : Int := 0) (mm : Int := 0) (ss : Int := 0) : DT := { y, m, d, hh, mm, ss, us := 0 }
@@ -470,6 +487,16 @@ example : dates (construct { freq := 0, dtstart := dt 1997 5 12 9, byweekno := s
 example : WeeknoYArgs { freq := 0, dtstart := dt 2020 1 1, wkst := some 6, byweekno := some [53, -1, 1] } :=
   ⟨rfl, by decide, by decide, by decide, rfl, rfl, by intro w hw; simp at hw,
    ⟨[53, -1, 1], rfl, by decide, ⟨by decide, by decide⟩⟩⟩
+
+-- an HourlyArgs instance: every 5 hours on Mondays at :00 and :30 — one turn per removed day (Tue..Sun)
+example : HourlyArgs { freq := 4, dtstart := dt 2024 1 1 7, interval := 5, byweekday := some [(0, 0)],
+                       byminute := some [0, 30] } :=
+  ⟨rfl, by decide, by decide, rfl, rfl, by intro x hx; simp at hx, rfl, by decide, by intro x hx; simp at hx⟩
+example : ((match construct { freq := 4, dtstart := dt 2024 1 1 7, interval := 5, byweekday := some [(0, 0)],
+                               byminute := some [0, 30] } with
+            | .ok r => (iterDT r 12).1 | .error _ => []).map (fun (t : DT) => (t.d, t.hh, t.mm))) =
+    [(1, 7, 0), (1, 7, 30), (1, 12, 0), (1, 12, 30), (1, 17, 0), (1, 17, 30), (1, 22, 0), (1, 22, 30),
+     (8, 4, 0), (8, 4, 30), (8, 9, 0), (8, 9, 30)] := by decide +kernel   -- 12 turns reach period 34 of the grid (170 h after the start)
 
 -- D-C01a: MONTHLY with plain MO and nth TU(1): nothing in a whole year although the set has every Monday
 example : dates (construct { freq := 1, dtstart := dt 2020 1 1 9, byweekday := some [(0, 0), (1, 1)] }) 12 = [] := by
